@@ -6,6 +6,7 @@ package c01
 import (
 	"bytes"
 	"fmt"
+	"os"
 	"sort"
 	"strings"
 	"sync"
@@ -30,6 +31,10 @@ type Sub struct {
 	PauseEvery int            `json:"pause_every"`
 	DataSeed   uint64         `json:"data_seed"`
 }
+
+// forceWrap is set by the C14 units of the plan: every connection then starts
+// next to 2^31 or 2^32 and a case counts only if its stream crossed the point.
+var forceWrap = os.Getenv("C01_FORCE_WRAP") == "1"
 
 func pattern(seed uint64, n int) []byte {
 	b := make([]byte, n)
@@ -223,6 +228,7 @@ func runSub(c Sub) *evid.Failure {
 	// classify what the network did
 	ev := p.W.Events()
 	faultsOnData, segs := 0, 0
+	crossed := false
 	seen := map[string]bool{}
 	var applied []string
 	for _, e := range ev {
@@ -246,9 +252,11 @@ func runSub(c Sub) *evid.Failure {
 			end := e.Pkt.Seq + uint32(len(e.Pkt.Payload))
 			if end < e.Pkt.Seq {
 				evid.Label("crossed_2^32")
+				crossed = true
 			}
 			if e.Pkt.Seq < 1<<31 && end >= 1<<31 {
 				evid.Label("crossed_2^31")
+				crossed = true
 			}
 			if len(e.Pkt.SACKBlocks()) > 0 {
 				seen["sackblocks"] = true
@@ -276,7 +284,7 @@ func runSub(c Sub) *evid.Failure {
 			evid.Label("passive_iss_placement_missed")
 		}
 	}
-	if faultsOnData >= 1 && segs >= 2 {
+	if (!forceWrap && faultsOnData >= 1 && segs >= 2) || (forceWrap && crossed) {
 		sort.Strings(applied)
 		cfg := c.Cfg
 		cfg.Prog = netsim.Program{}
@@ -328,8 +336,12 @@ func genSub(rt *rapid.T) Sub {
 	c.PauseBms = rapid.SampledFrom([]int{0, 0, 1, 5, 30}).Draw(rt, "pause_b")
 	c.PauseAms = rapid.SampledFrom([]int{0, 0, 1, 5}).Draw(rt, "pause_a")
 	c.DataSeed = rapid.Uint64().Draw(rt, "data_seed")
-	// ISS placement
-	switch rapid.IntRange(0, 3).Draw(rt, "iss_mode") {
+	// ISS placement (C14's scenario units force a wrap-adjacent placement)
+	lo := 0
+	if forceWrap {
+		lo = 1
+	}
+	switch rapid.IntRange(lo, 3).Draw(rt, "iss_mode") {
 	case 1:
 		c.Cfg.PlaceActive = true
 		c.Cfg.ActiveISS = wrapNear(rt, "active", c.AtoB)
